@@ -111,7 +111,18 @@ UniformVerdict(c) ==   \* coordinates in HALF ticks so that centre +- width/2 is
                     cy == Clamp(p[2] - (p[4] - p[6] \div 2), 0, p[6])
                 IN p[7][1] = 0 \/ ~FClose(p[7][2], FDivInt(FInt(cx * cy), p[5] * p[6]), E12)}
   IN IF bad # {} THEN <<"fail", "uniform-kernel-not-box-cdf", Min(bad), 0>> ELSE <<"ok", "", 0, 0>>
-Verdict(c) == CASE c.kind = "grid" -> GridVerdict(c) [] c.kind = "seam" -> SeamVerdict(c) [] c.kind = "limit" -> LimitVerdict(c)
+\* kind "ridge": R = values along the ridge (x - mu_x)/sd_x = sgn (y - mu_y)/sd_y of a correlated kernel (decimal means, non-dyadic standard
+\* deviations and steps: the two standardised coordinates agree only up to the last bits), sgn = 1 : both coordinates increase together, so the
+\* CDF is non-decreasing along it; Up = Phi at the ridge abscissae (Frechet upper bound min(Phi(h), Phi(k)) = Phi(z)) as Fix records from the harness\'s
+\* lattice points z = t/8.  Every value finite, within [0, 1], below the Frechet bound; monotone when sgn = 1.
+RidgeVerdict(c) ==
+  LET n == Len(c.R) IN
+  IF \E i \in 1..n : c.R[i][1] = 0 THEN <<"fail", "not-finite", 0, 0>>
+  ELSE IF \E i \in 1..n : ~(FLeq(FNeg(E12), c.R[i][2]) /\ FLeq(c.R[i][2], FAdd(FInt(1), E12))) THEN <<"fail", "outside-unit-interval", 0, 0>>
+  ELSE IF c.sgn = 1 /\ \E i \in 1..(n - 1) : ~FLeq(c.R[i][2], FAdd(c.R[i + 1][2], E12)) THEN <<"fail", "decreasing-in-an-argument", 0, 0>>
+  ELSE IF c.sgn = 1 /\ c.frechet = 1 /\ \E i \in 1..n : ~FLeq(c.R[i][2], FAdd(PhiTab(c.ts[i]), E9)) THEN <<"fail", "outside-frechet-bounds", 0, 0>>
+  ELSE <<"ok", "", 0, 0>>
+Verdict(c) == CASE c.kind = "ridge" -> RidgeVerdict(c) [] c.kind = "grid" -> GridVerdict(c) [] c.kind = "seam" -> SeamVerdict(c) [] c.kind = "limit" -> LimitVerdict(c)
                 [] c.kind = "slepian" -> SlepianVerdict(c) [] c.kind = "product" -> ProductVerdict(c) [] c.kind = "uniform" -> UniformVerdict(c)
 TInit == k = 1
 TNext == /\ k <= Len(Cases)
